@@ -31,6 +31,8 @@ inductive Err
   | downstream
   /-- a buffer index outside its buffer (undefined behaviour in C) -/
   | oob
+  /-- the Cython wrapper's `assert`s: `to_accumulate` / `accumulation` do not have the shape of `flowdir` -/
+  | shape
   deriving DecidableEq, Repr
 
 /-- flow-direction grid as the kernel sees it: dimensions, the 3x3 code table flattened, row-major data -/
@@ -158,6 +160,79 @@ def accumulate (g : FlowGrid) (maxCells : Int) (nodata : α) (field : Array α) 
 def accumulateUnit [OfNat α 1] (g : FlowGrid) (maxCells : Int) (nodata : α) : Except Err (Array α) :=
   accumulate g maxCells nodata (Array.replicate g.flowdir.size (1 : α))
 
+/-! ### the two float buffers as memory: `to_accumulate` and `accumulation` may be the SAME array
+
+`c_accumulate` receives two `double*`. The pure functions above thread only the accumulation buffer; here
+both buffers live in a store so that "the kernel writes only through the `accumulation` pointer" and "the
+wrapper hands it a copy" are statements with content: with `aliased = true` (one array passed twice) every
+write is also seen by the reads of `to_accumulate[i]`. -/
+
+structure Store (α : Type) where
+  field : Array α
+  acc : Array α
+  /-- the two pointers designate the same memory (`acc` is then ignored) -/
+  aliased : Bool
+
+/-- the memory behind the `accumulation` pointer -/
+def Store.accArr (s : Store α) : Array α := if s.aliased then s.field else s.acc
+/-- store through the `accumulation` pointer -/
+def Store.setAcc (s : Store α) (a : Array α) : Store α :=
+  if s.aliased then { s with field := a } else { s with acc := a }
+
+/-- `walk` on the store: `to_accumulate[src]` is read from memory at every step -/
+def walkS (g : FlowGrid) (nodata : α) (src : Nat) : Nat → Int → Store α → Except Err (Store α)
+  | 0, _, s => .ok s
+  | fuel + 1, cur, s =>
+    match downstream g cur with
+    | .error _ => .error .downstream
+    | .ok d =>
+      if d < 0 then (writeAt s.accArr cur nodata).map s.setAcc
+      else
+        match s.field[src]? with
+        | none => .error .oob
+        | some v =>
+          match addAt s.accArr d v with
+          | .error e => .error e
+          | .ok a => walkS g nodata src fuel d (s.setAcc a)
+
+def accLoopS (g : FlowGrid) (nodata : α) (fuel : Nat) : List Nat → Store α → Except Err (Store α)
+  | [], s => .ok s
+  | i :: rest, s =>
+    match walkS g nodata i fuel (i : Int) s with
+    | .error e => .error e
+    | .ok s' => accLoopS g nodata fuel rest s'
+
+/-- `c_accumulate` on memory -/
+def cAccumulateS (g : FlowGrid) (maxCells : Int) (nodata : α) (s : Store α) : Except Err (Store α) :=
+  if maxCells < 1 then .error .badMaxCells
+  else if g.nrows < 1 ∨ g.nrows < 1 then .error .badDims
+  else accLoopS g nodata (fuelOf maxCells) (List.range g.ntot.toNat) s
+
+/-! ### the wrapper on grid objects: shapes, default field, no-data value of the result -/
+
+/-- a float grid as the wrapper sees it (`to_accumulate`, and the returned `accumulation`) -/
+structure FieldGrid (α : Type) where
+  nrows : Int
+  ncols : Int
+  data : Array α
+  nodata : α
+
+/-- `grid.accumulate(flowdir, to_accumulate, nprint, max_accumulated_cells)` on grid objects.
+`fdNodata` is `flowdir.nodata` as a double (used only when the default unit field is built from a clone of
+`flowdir`). Order of the code: default cap; default field; `accumulation = to_accumulate.clone()` — a deep copy,
+i.e. NOT aliased; the Cython `assert`s on the shapes; the kernel; the result is the clone (same no-data value
+as the field, dimensions of the field = dimensions of `flowdir`). Returns the final memory and the result grid. -/
+def gridAccumulate [OfNat α 1] (g : FlowGrid) (fdNodata : α) (field : Option (FieldGrid α)) (maxCells : Int) :
+    Except Err (Store α × FieldGrid α) :=
+  let f : FieldGrid α := match field with
+    | some f => f
+    | none => ⟨g.nrows, g.ncols, Array.replicate g.flowdir.size (1 : α), fdNodata⟩
+  if f.nrows ≠ g.nrows ∨ f.ncols ≠ g.ncols then .error .shape
+  else
+    match cAccumulateS g (capOf g maxCells) f.nodata ⟨f.data, f.data, false⟩ with
+    | .error e => .error e
+    | .ok s => .ok (s, ⟨f.nrows, f.ncols, s.acc, f.nodata⟩)
+
 end Walk
 
 /-! ### specification vocabulary (computable, used by the theorems and by `example`s) -/
@@ -201,6 +276,14 @@ def orderSensitive (g : FlowGrid) (fuel : Nat) : List Int :=
       let t := iterDn g fuel (u : Int)
       if 0 ≤ t ∧ dn g t < 0 then some t else none
     else none
+
+/-- computable upstream closure of `c`: `c` and the cells whose walk passes through `c` -/
+def upClosure (g : FlowGrid) (fuel : Nat) (c : Int) : List Nat :=
+  (List.range g.ntot.toNat).filter fun (u : Nat) => decide ((u : Int) = c) || onPath g fuel (u : Int) c
+
+/-- computable list of the direct upstream cells of `c` -/
+def directUpList (g : FlowGrid) (c : Int) : List Nat :=
+  (List.range g.ntot.toNat).filter fun (u : Nat) => decide (dn g (u : Int) = c)
 
 /-- every walk reaches a cell that drains nowhere before the cap -/
 def AllTerminate (g : FlowGrid) (fuel : Nat) : Prop :=
